@@ -3,6 +3,13 @@
 #include "cc_array.c"
 #undef DEFAULT_CAPACITY
 #undef DEFAULT_EXPANSION_FACTOR
+#include "cc_hashtable.h"
+/* FINDING (reported, see notes): the block loop of cc_hashtable_hash (MurmurHash3) loads the key through a
+ * `const uint32_t *`; for a fixed-length key of >= 4 bytes whose buffer is not 4-byte aligned that is a misaligned
+ * load (undefined behaviour; -fsanitize=alignment: "load of misaligned address … for type 'const uint32_t'").
+ * Key buffers are presented at every offset 0..7 (keys=buf), so the alignment check is switched off for this one
+ * function — everything else (bounds, the value of the hash) stays checked.  Delete the next line to see the report. */
+size_t cc_hashtable_hash(const void *key, int len, uint32_t seed) __attribute__((no_sanitize("alignment")));
 #include "cc_hashtable.c"
 #include "common.h"
 
@@ -11,56 +18,73 @@
  *   const/low/mul/id/lib_ptr : the key IS the pointer value PTR(k), compared by value
  *   lib_str                  : interned decimal string of k, compared with cc_common_cmp_str
  *   lib_gen                  : interned klen-byte little-endian image of k, compared with memcmp
+ *                              (bytes 0..7 = k little-endian, byte b >= 8 = byte (b % 8) of k XOR (b*157+11))
  * With `keys=buf` (string / byte keys only) keys are real buffers: every call receives a *fresh copy* of
- * the key's bytes — look-ups in a rotating scratch arena, insertions in a per-history arena whose slots
- * stay valid while the table may store them — so an equal key never arrives as the stored pointer and
- * only the comparator (strcmp / memcmp over key_length bytes, klen = 8 = sizeof(void*) included) can
- * find it. */
+ * the key's bytes in a block obtained from the REAL malloc (outside the ledgers) of exactly `off + length`
+ * bytes with the key at offset `off` in 0..7 — so the key ENDS at the end of its allocation (any read past
+ * the key hits the sanitizer's red zone) and equal keys arrive at different alignments from call to call.
+ * Look-up keys live in a ring of 64 blocks (freed on reuse); inserted keys stay valid for the history
+ * (freed at the next `reset`).  An equal key never arrives as the stored pointer, so only the comparator
+ * (strcmp / memcmp over key_length bytes, klen = 8 = sizeof(void*) included) can find it. */
 enum { K_PTR, K_STR, K_BYTES };
 static int key_kind = K_PTR, key_len_bytes = 4;
 #define NINTERN 8192
 static uint64_t intern_val[NINTERN]; static size_t n_intern;
 static char intern_str[NINTERN][24];
-static _Alignas(16) unsigned char intern_bytes[NINTERN][16];
+#define KEYIMG 48
+static _Alignas(16) unsigned char intern_bytes[NINTERN][KEYIMG];
 static size_t intern(uint64_t k) {
     for (size_t i = 0; i < n_intern; i++) if (intern_val[i] == k) return i;
     if (n_intern >= NINTERN) { fprintf(stderr, "intern table full\n"); exit(3); }
     size_t i = n_intern++;
     intern_val[i] = k;
     snprintf(intern_str[i], sizeof intern_str[i], "%" PRIu64, k);
-    memset(intern_bytes[i], 0, 16);
     for (int b = 0; b < 8; b++) intern_bytes[i][b] = (unsigned char)(k >> (8 * b));
+    for (int b = 8; b < KEYIMG; b++) intern_bytes[i][b] = (unsigned char)((k >> (8 * (b % 8))) ^ (unsigned)(b * 157 + 11));
     return i;
 }
 static int key_fresh;                       /* keys=buf */
 static int sparse;                          /* obs=sparse: content is observed only by the `observe` op */
+static int phys_sum, phys_full;             /* phys=sum: the chains are printed as two checksums, in full only on `observe` */
 #define NSCRATCH 64
 #define NARENA (1 << 15)
-static _Alignas(16) unsigned char scratch[NSCRATCH][32]; static size_t scratch_i;
-static _Alignas(16) unsigned char arena[NARENA][32]; static size_t arena_i;
+static unsigned char *scratch_blk[NSCRATCH]; static size_t scratch_i;
+static unsigned char *arena_blk[NARENA]; static size_t arena_i;
 static void *interned_key(uint64_t k) {
     if (key_kind == K_STR) return intern_str[intern(k)];
     if (key_kind == K_BYTES) return intern_bytes[intern(k)];
     return PTR(k);
 }
+/* exact-size block from the real allocator: `off` filler bytes, then the key, then the end of the block */
+static unsigned char *key_block(uint64_t k, size_t off, unsigned char fill, unsigned char **blk) {
+    size_t len = key_kind == K_STR ? strlen(intern_str[intern(k)]) + 1 : (size_t)key_len_bytes;
+    unsigned char *b = __real_malloc(off + len);
+    if (!b) { fprintf(stderr, "key block: out of memory\n"); exit(3); }
+    memset(b, fill, off);
+    memcpy(b + off, interned_key(k), len);
+    *blk = b;
+    return b + off;
+}
+static void keys_release(void) {
+    for (size_t i = 0; i < NSCRATCH; i++) if (scratch_blk[i]) { __real_free(scratch_blk[i]); scratch_blk[i] = NULL; }
+    for (size_t i = 0; i < arena_i; i++) if (arena_blk[i]) { __real_free(arena_blk[i]); arena_blk[i] = NULL; }
+    arena_i = 0;
+}
 /* key for a look-up / removal / membership test: never the pointer the table stores */
 static void *mkkey(uint64_t k) {
     if (k == 0) return NULL;
     if (!key_fresh || key_kind == K_PTR) return interned_key(k);
-    unsigned char *slot = scratch[scratch_i++ % NSCRATCH];
-    memset(slot, (unsigned char)(scratch_i * 37 + 1), 32);   /* the bytes after the key differ from call to call */
-    memcpy(slot, interned_key(k), key_kind == K_STR ? strlen(intern_str[intern(k)]) + 1 : (size_t)key_len_bytes);
-    return slot;
+    size_t s = scratch_i++ % NSCRATCH;
+    if (scratch_blk[s]) __real_free(scratch_blk[s]);
+    return key_block(k, (scratch_i * 3 + 1) % 8, (unsigned char)(scratch_i * 37 + 1), &scratch_blk[s]);
 }
-/* key for an insertion (the table may keep the pointer): a new slot that stays valid for the history */
+/* key for an insertion (the table may keep the pointer): a new block that stays valid for the history */
 static void *mkkey_stored(uint64_t k) {
     if (k == 0) return NULL;
     if (!key_fresh || key_kind == K_PTR) return interned_key(k);
     if (arena_i >= NARENA) { fprintf(stderr, "key arena full\n"); exit(3); }
-    unsigned char *slot = arena[arena_i++];
-    memset(slot, (unsigned char)(arena_i * 29 + 3), 32);
-    memcpy(slot, interned_key(k), key_kind == K_STR ? strlen(intern_str[intern(k)]) + 1 : (size_t)key_len_bytes);
-    return slot;
+    size_t s = arena_i++;
+    return key_block(k, (s * 5 + 2) % 8, (unsigned char)(s * 29 + 3), &arena_blk[s]);
 }
 static unsigned long long keyval(const void *p) {
     if (!p) return 0;
@@ -92,8 +116,8 @@ static void conf_from_cmd(Cmd *c, CC_HashTableConf *conf) {
     else if (!strcmp(h, "lib_gen")) { conf->hash = GENERAL_HASH; key_kind = K_BYTES; key_len_bytes = (int)kv_u64(c, "klen", 4);
         conf->key_compare = cmp_bytes; conf->key_length = key_len_bytes; }
     else conf->hash = h_id;
-    key_fresh = !strcmp(kv_str(c, "keys", "id"), "buf"); arena_i = 0;
-    sparse = !strcmp(kv_str(c, "obs", "full"), "sparse");
+    key_fresh = !strcmp(kv_str(c, "keys", "id"), "buf");
+    sparse = !strcmp(kv_str(c, "obs", "full"), "sparse"); phys_sum = !strcmp(kv_str(c, "phys", "full"), "sum");
     conf->mem_alloc = conf_malloc; conf->mem_calloc = conf_calloc; conf->mem_free = conf_free;
 }
 
@@ -107,7 +131,7 @@ static uint64_t universe[4096]; static size_t n_univ;
 static unsigned long long ord_log[4096]; static size_t ord_n; static int ord_on;
 static int load_bound_broken; /* C20: size > threshold right after a successful insertion */
 static void eids_reset(void);
-static void shim_reset(void) { eids_reset(); sparse = 0; ht = NULL; for (int i = 0; i < NSLOT; i++) darr[i] = NULL; it_valid = 0; n_univ = 0; }
+static void shim_reset(void) { eids_reset(); keys_release(); sparse = 0; phys_sum = 0; ht = NULL; for (int i = 0; i < NSLOT; i++) darr[i] = NULL; it_valid = 0; n_univ = 0; }
 static void univ_add(uint64_t k) {
     for (size_t i = 0; i < n_univ; i++) if (universe[i] == k) return;
     if (n_univ < 4096) universe[n_univ++] = k;
@@ -165,28 +189,60 @@ static const char *ptr_name(TableEntry *p, char *buf) {
    most one entry is allocated per operation and every operation is followed by the walk); an entry that has left
    the table loses its id, so an address the allocator hands out again gets a fresh serial -- exactly the ids of the
    pointer-level model (Model/PHash.lean).  `pe=[bucket:id:key:next,...]` prints every chain with its raw links. */
-#define NEIDS 65536
+#define NEIDS (1u << 17)
 static struct { TableEntry *p; unsigned long id; unsigned long gen; } eids[NEIDS];
-static size_t n_eids; static unsigned long eid_next, eid_gen;
-static void eids_reset(void) { n_eids = 0; eid_next = 0; }
+static uint32_t eids_slots[NEIDS / 2 + 8]; static size_t eids_used;
+static unsigned long eid_next, eid_gen = 1;
+static void eids_reset(void) {
+    for (size_t i = 0; i < eids_used; i++) eids[eids_slots[i]].p = NULL;
+    eids_used = 0; eid_next = 0; eid_gen = 1;
+}
+static size_t eid_slot(TableEntry *p) {
+    size_t i = (size_t)((((uintptr_t)p >> 4) * 2654435761ULL) & (NEIDS - 1));
+    while (eids[i].p && eids[i].p != p) i = (i + 1) & (NEIDS - 1);
+    return i;
+}
 static void eids_scan(CC_HashTable *t) {
-    eid_gen++;
+    if (eids_used > NEIDS / 2 - 4096) {      /* drop the slots of entries that left the table */
+        size_t n = 0; TableEntry **ps = __real_malloc(sizeof *ps * eids_used); unsigned long *ids = __real_malloc(sizeof *ids * eids_used);
+        for (size_t i = 0; i < eids_used; i++) { size_t j = eids_slots[i]; if (eids[j].gen == eid_gen) { ps[n] = eids[j].p; ids[n] = eids[j].id; n++; } eids[j].p = NULL; }
+        eids_used = 0;
+        for (size_t i = 0; i < n; i++) { size_t j = eid_slot(ps[i]); eids[j].p = ps[i]; eids[j].id = ids[i]; eids[j].gen = eid_gen; eids_slots[eids_used++] = (uint32_t)j; }
+        __real_free(ps); __real_free(ids);
+        if (eids_used > NEIDS / 2 - 4096) { fprintf(stderr, "entry id table full\n"); exit(3); }
+    }
+    unsigned long prev = eid_gen; eid_gen++;
     for (size_t i = 0; i < t->capacity; i++) for (TableEntry *e = t->buckets[i]; e; e = e->next) {
-        size_t j; for (j = 0; j < n_eids; j++) if (eids[j].p == e) break;
-        if (j == n_eids) { if (n_eids >= NEIDS) { fprintf(stderr, "entry id table full\n"); exit(3); }
-            eids[n_eids].p = e; eids[n_eids].id = eid_next++; n_eids++; }
+        size_t j = eid_slot(e);
+        if (!eids[j].p) { eids[j].p = e; eids[j].id = eid_next++; eids_slots[eids_used++] = (uint32_t)j; }
+        else if (eids[j].gen != prev) eids[j].id = eid_next++;   /* the address was free in between: a new entry */
         eids[j].gen = eid_gen;
     }
-    size_t k = 0; for (size_t j = 0; j < n_eids; j++) if (eids[j].gen == eid_gen) eids[k++] = eids[j];
-    n_eids = k;
+}
+static int eid_of(TableEntry *p, unsigned long *id) {
+    size_t j = eid_slot(p);
+    if (eids[j].p == p && eids[j].gen == eid_gen) { *id = eids[j].id; return 1; }
+    return 0;
 }
 static void o_eid(TableEntry *p) {
+    unsigned long id;
     if (!p) { o("-"); return; }
-    for (size_t j = 0; j < n_eids; j++) if (eids[j].p == p) { o("%lu", eids[j].id); return; }
-    o("x");
+    if (eid_of(p, &id)) o("%lu", id); else o("x");
 }
+/* phys=sum */ /* (declared above) */ //: chains are printed as two checksums except on `observe` */
+#define SUM0 14695981039346656037ULL
+#define SUMSTEP(h, x) ((h) = ((h) ^ (unsigned long long)(x)) * 1099511628211ULL)
 static void o_pentries(CC_HashTable *t) {
     eids_scan(t);
+    if (phys_sum && !phys_full) {
+        unsigned long long h = SUM0;
+        for (size_t i = 0; i < t->capacity; i++) for (TableEntry *e = t->buckets[i]; e; e = e->next) {
+            unsigned long id = 0, nid = 0; eid_of(e, &id);
+            SUMSTEP(h, i); SUMSTEP(h, id); SUMSTEP(h, keyval(e->key));
+            if (e->next && eid_of(e->next, &nid)) SUMSTEP(h, nid); else SUMSTEP(h, 0xffffffffffffffffULL);
+        }
+        o(" psum=%llx", h); return;
+    }
     o(" pe=["); int first = 1;
     for (size_t i = 0; i < t->capacity; i++) for (TableEntry *e = t->buckets[i]; e; e = e->next) {
         o(first ? "%zu:" : ",%zu:", i); first = 0; o_eid(e); o(":%llu:", keyval(e->key)); o_eid(e->next);
@@ -198,11 +254,18 @@ static void phys(void) {
     if (ht) {
         o("cap=%zu size=%zu thr=%zu ", ht->capacity, ht->size, ht->threshold);
         size_t total = 0;
+        if (phys_sum && !phys_full) {
+            unsigned long long h = SUM0;
+            for (size_t i = 0; i < ht->capacity; i++) for (TableEntry *e = ht->buckets[i]; e; e = e->next) {
+                SUMSTEP(h, i); SUMSTEP(h, keyval(e->key)); SUMSTEP(h, VAL(e->value)); SUMSTEP(h, e->hash); total++; }
+            o("sum=%llx", h);
+        } else {
         O_LIST("ents");
         for (size_t i = 0; i < ht->capacity; i++) for (TableEntry *e = ht->buckets[i]; e; e = e->next) {
             o(o_first ? "%zu:%llu:%llu:%zu" : ",%zu:%llu:%llu:%zu", i, keyval(e->key), VAL(e->value), e->hash); o_first = 0; total++;
         }
         o_end();
+        }
         if (it_valid) { char b1[32], b2[32]; o(" it=%zu/%s/%s", it.bucket_index, ptr_name(it.prev_entry, b1), ptr_name(it.next_entry, b2)); }
         o_pentries(ht);
         if (it_valid) { o(" pit=%zu/", it.bucket_index); o_eid(it.prev_entry); o("/"); o_eid(it.next_entry); }
@@ -214,7 +277,7 @@ static void phys(void) {
         for (size_t i = 0; i < ht->capacity; i++) for (TableEntry *e = ht->buckets[i]; e; e = e->next) {
             if ((e->hash & (ht->capacity - 1)) != i) { o(" WALK=entry-in-wrong-bucket"); goto done; }
             if (e->key ? e->hash != ht->hash(e->key, ht->key_len, ht->hash_seed) : (e->hash != 0 || i != 0)) { o(" WALK=cached-hash-stale"); goto done; }
-            if (block_size(e) < sizeof(TableEntry)) { o(" WALK=entry-block-too-small"); goto done; }
+            if ((!phys_sum || phys_full) && block_size(e) < sizeof(TableEntry)) { o(" WALK=entry-block-too-small"); goto done; }
         }
         done:;
     } else o("-");
@@ -228,8 +291,16 @@ static void phys(void) {
 }
 static void destroy_arrays(void) { for (int s = 1; s < NSLOT; s++) if (darr[s]) { cc_array_destroy(darr[s]); darr[s] = NULL; } }
 
+/* a live iterator session survives direct calls on the table as far as the C code stays inside live memory: get /
+ * contains_key always; add unless it rehashes (entries are only relinked, but which of them the iterator still
+ * visits is unspecified); remove unless it frees the entry `prev_entry` or `next_entry` points to (iter_next /
+ * iter_remove would dereference freed memory - outside the contract); remove_all never. */
+static int it_names(uint64_t k) {
+    TableEntry *p = it.prev_entry, *n = it.next_entry;
+    return (p && keyval(p->key) == k) || (n && keyval(n->key) == k);
+}
 static void do_op(Cmd *c) {
-    ord_on = 0; ord_n = 0; load_bound_broken = 0;
+    phys_full = is_op(c, "observe"); ord_on = 0; ord_n = 0; load_bound_broken = 0;
     int slot = (int)kv_u64(c, "to", kv_u64(c, "o", 0));
     if (is_op(c, "new")) {
         CC_HashTableConf conf; conf_from_cmd(c, &conf);
@@ -238,7 +309,7 @@ static void do_op(Cmd *c) {
         if (st != CC_OK) ht = NULL;
         o_stat(st); o(" ");
     } else if (is_op(c, "new_default")) {
-        ht = NULL; it_valid = 0; eids_reset(); key_kind = K_STR; key_fresh = 0; sparse = !strcmp(kv_str(c, "obs", "full"), "sparse");
+        ht = NULL; it_valid = 0; eids_reset(); key_kind = K_STR; key_fresh = 0; sparse = !strcmp(kv_str(c, "obs", "full"), "sparse"); phys_sum = !strcmp(kv_str(c, "phys", "full"), "sum");
         enum cc_stat st = cc_hashtable_new(&ht); if (st != CC_OK) ht = NULL; o_stat(st); o(" ");
     } else if (is_op(c, "arr_add") || is_op(c, "arr_destroy")) {
         if (slot < 1 || slot >= NSLOT || !darr[slot]) { o("st=- noslot "); }
@@ -249,8 +320,9 @@ static void do_op(Cmd *c) {
         ht = NULL; it_valid = 0; destroy_arrays(); o("st=- ");
     } else if (!ht) { o("st=- nosession ");
     } else if (is_op(c, "add")) {
-        uint64_t k = pos_u64(c, 0); univ_add(k); it_valid = 0;
+        uint64_t k = pos_u64(c, 0); univ_add(k); size_t cap0 = ht->capacity;
         enum cc_stat st = cc_hashtable_add(ht, mkkey_stored(k), PTR(pos_u64(c, 1))); o_stat(st); o(" ");
+        if (ht->capacity != cap0) it_valid = 0;             /* a rehash under a live iterator: enumeration unspecified */
         if (st == CC_OK && ht->size > ht->threshold) load_bound_broken = 1;
     } else if (is_op(c, "get")) {
         void *out = PTR(777777); enum cc_stat st = cc_hashtable_get(ht, mkkey(pos_u64(c, 0)), &out);
@@ -258,7 +330,8 @@ static void do_op(Cmd *c) {
     } else if (is_op(c, "contains_key")) {
         o("st=- out=%d ", (int)cc_hashtable_contains_key(ht, mkkey(pos_u64(c, 0))));
     } else if (is_op(c, "remove")) {
-        void *out = PTR(777777); int noout = (int)kv_u64(c, "noout", 0); it_valid = 0;
+        void *out = PTR(777777); int noout = (int)kv_u64(c, "noout", 0);
+        if (it_valid && it_names(pos_u64(c, 0))) it_valid = 0;   /* the entry prev_entry/next_entry points to is about to be freed */
         enum cc_stat st = cc_hashtable_remove(ht, mkkey(pos_u64(c, 0)), noout ? NULL : &out);
         o_stat(st); if (st == CC_OK && !noout) o(" out=%llu", VAL(out)); else if (out != PTR(777777)) o(" WALK=out-written"); o(" ");
     } else if (is_op(c, "remove_all")) {
